@@ -80,7 +80,7 @@ def oracle(c):
     return None
 
 
-MARKS = ('usernote', 'topnote', 'tailnote')
+MARKS = ('usernote', 'topnote', 'tailnote', 'see{docs}', '{0}', '{{x}}', '%s', '{')      # user texts are data, not templates
 
 
 def marks_of(t):
@@ -128,8 +128,10 @@ def cases_for(tier):
     for t in seqs + subs:
         if len(t[1] if t[0] != 'sub' else t[2][1]) < 2:
             continue
-        for wrap in (lambda x: ('trailing', x, 'tailnote'), lambda x: ('commented', x, 'topnote'),
-                     lambda x: ('trailing', ('commented', x, 'topnote'), 'tailnote')):
+        tails = ['tailnote', 'see{docs}', '{0}', '{{x}}', '%s', '{']
+        for wrap in (lambda x: ('trailing', x, r.choice(tails)), lambda x: ('commented', x, 'topnote'),
+                     lambda x: ('trailing', x, r.choice(tails[1:])),
+                     lambda x: ('trailing', ('commented', x, 'topnote'), r.choice(tails))):
             wt = wrap(t)
             if t[0] == 'frozenset' or (t[0] == 'sub' and t[2][0] == 'frozenset'):
                 if wt[0] == 'trailing':
